@@ -36,7 +36,7 @@ Proof.
   vm_compute in E. discriminate.
 Qed.
 
-(** "is proposed": with a byte cap that admits the first pending entry, PendingEvidence
+(** "is proposed": with a byte cap that has room for the first pending entry, PendingEvidence
     returns at least that entry (the default cap is now the 104857-byte budget) *)
 Lemma list_loop_prefix : forall l mb acc x y,
   forallb validate_basic l = true ->
